@@ -80,11 +80,15 @@ func safeRun(base *gorm.DB, p Prog) (res *gorm.DB, panicked string) {
 }
 
 func (t *Targets) runAll(w *hx.Writer, caseNo int, p Prog) {
-	// C01: dummy dialects, DryRun
+	// C01: dummy dialects, DryRun  (Save / CreateInBatches are C19 programs only)
+	c19only := p.Fin.Kind == "save" || p.Fin.Kind == "create_batches"
 	for _, tg := range []struct {
 		name string
 		db   *gorm.DB
 	}{{"q", t.Q}, {"d", t.D}} {
+		if c19only {
+			break
+		}
 		res, pan := safeRun(tg.db, p)
 		ev := stmtEvent(caseNo, tg.name, p, res.Statement.SQL.String(), res.Statement.Vars)
 		ev["panic"] = pan
@@ -97,7 +101,9 @@ func (t *Targets) runAll(w *hx.Writer, caseNo int, p Prog) {
 	realSQL, realVars, _, _ := mainStmt(t.Rec.Events())
 	rev := stmtEvent(caseNo, "real", p, realSQL, realVars)
 	rev["panic"] = pan
-	w.Emit(rev)
+	if !c19only {
+		w.Emit(rev)
+	}
 	// C19: the same operation in DryRun mode and through ToSQL on the identical database
 	t.clean()
 	t.Rec.Reset()
@@ -135,13 +141,18 @@ func (t *Targets) runAll(w *hx.Writer, caseNo int, p Prog) {
 	safeRun(scoped(t.Real), p)
 	sReal, sVars, _, _ := mainStmt(t.Rec.Events())
 	scopedReal := t.Real.Dialector.Explain(sReal, sVars...)
-	if p.Fin.Kind == "create" || p.Fin.Kind == "create_slice" || p.Fin.Kind == "create_map" || p.Fin.Kind == "upsert" || p.Fin.Kind == "raw" || p.Fin.Kind == "exec" || p.Fin.Kind == "rows" {
+	drySQL, dryVals := dry.Statement.SQL.String(), idsOf(dry.Statement.Vars)
+	realVals := idsOf(realVars)
+	if p.Fin.Kind == "create_batches" {
+		drySQL, realSQL, dryVals, realVals = "", "", []string{}, []string{}
+	}
+	if c19only || p.Fin.Kind == "create" || p.Fin.Kind == "create_slice" || p.Fin.Kind == "create_map" || p.Fin.Kind == "upsert" || p.Fin.Kind == "raw" || p.Fin.Kind == "exec" || p.Fin.Kind == "rows" {
 		scopedText, scopedReal = "", "" // these finishers start from the base handle / raw SQL: the scope does not apply
 	}
 	rp, _ := json.Marshal(p)
 	w.Emit(hx.M{"ev": "Dry", "case": caseNo, "prog": progJ(p), "rprog": string(rp),
-		"dry_sql": dry.Statement.SQL.String(), "dry_vals": idsOf(dry.Statement.Vars), "dry_stmts": dryStmts,
-		"real_sql": realSQL, "real_vals": idsOf(realVars), "tosql_calls": tosqlTotal,
+		"dry_sql": drySQL, "dry_vals": dryVals, "dry_stmts": dryStmts,
+		"real_sql": realSQL, "real_vals": realVals, "tosql_calls": tosqlTotal,
 		"scoped_tosql": scopedText, "scoped_real": scopedReal, "panic": dpan})
 }
 
